@@ -59,7 +59,22 @@ pub struct Case18 {
     pub mode: String,
     /// other table entries present at the same time
     pub extra: Vec<(String, String)>,
+    /// the mapped (plain) name is also defined in the project: "" | struct | nested | enum | newtype
+    pub local: String,
 }
+
+/// a local serde definition of the mapped name; `nested` reaches a type only through it
+fn local_def(name: &str, form: &str) -> String {
+    let d = "#[derive(Debug, Clone, Serialize, Deserialize, PartialEq, Eq, Hash, PartialOrd, Ord)]";
+    match form {
+        "struct" => format!("\n{}\npub struct {} {{\n    pub cents: i64,\n}}\n", d, name),
+        "nested" => format!("\n{d}\npub struct OnlyViaMapped {{\n    pub v: i32,\n}}\n\n{d}\npub struct {} {{\n    pub inner: OnlyViaMapped,\n    pub again: Vec<OnlyViaMapped>,\n}}\n", name, d = d),
+        "enum" => format!("\n{}\npub enum {} {{\n    One,\n    Two,\n}}\n", d, name),
+        "newtype" => format!("\n{}\npub struct {}(pub i64);\n", d, name),
+        _ => String::new(),
+    }
+}
+pub const LOCAL_FORMS: &[&str] = &["struct", "nested", "enum", "newtype"];
 
 fn obs_text(o: &Obs) -> String {
     match o {
@@ -71,7 +86,7 @@ fn obs_text(o: &Obs) -> String {
 pub fn check_case(c: &Case18, stats: &mut Stats) -> Vec<Failure> {
     let zod = c.mode == "zod";
     let ty = wrap(&c.wrap, named(&c.name), false);
-    let src = c05::source_for(&ty);
+    let src = format!("{}{}", c05::source_for(&ty), if c.generic { String::new() } else { local_def(&c.name, &c.local) });
     must_parse("src/lib.rs", &src);
     let mut table = vec![(c.name.clone(), c.target.clone())];
     table.extend(c.extra.iter().cloned());
@@ -89,7 +104,11 @@ pub fn check_case(c: &Case18, stats: &mut Stats) -> Vec<Failure> {
     };
     must_parse("src/lib.rs", &ref_src);
     let out_a = generate(&[("src/lib.rs".into(), ref_src.clone())], &ref_cfg);
-    let base_tags = vec![format!("mode={}", c.mode), format!("wrap={}", c.wrap), format!("source={}", if c.generic { "generic" } else { "plain" }), format!("name={}", c.name), format!("target={}", c.target)];
+    let mut base_tags = vec![format!("mode={}", c.mode), format!("wrap={}", c.wrap), format!("source={}", if c.generic { "generic" } else { "plain" }), format!("name={}", c.name), format!("target={}", c.target)];
+    if !c.local.is_empty() && !c.generic {
+        base_tags.push(format!("local={}", c.local));
+        stats.label(&format!("local={}", c.local));
+    }
     let case = json!({"mapping": table, "mode": c.mode, "rust_type": ty.rust(false), "rust": src});
     let mut fails = vec![];
     for (o, which) in [(&out_a, "reference"), (&out_b, "mapped")] {
@@ -204,6 +223,11 @@ pub fn check_case(c: &Case18, stats: &mut Stats) -> Vec<Failure> {
                 if va.contains(&c.name) || k.starts_with("unparsed:") {
                     continue;
                 }
+                // a type reachable only through the mapped one may or may not be kept: the
+                // property does not say; if kept it must be unchanged
+                if k.contains("OnlyViaMapped") && !mb.contains_key(k) {
+                    continue;
+                }
                 match mb.get(k) {
                     Some(vb) if vb == va => {}
                     Some(vb) => {
@@ -224,9 +248,19 @@ pub fn grid() -> Vec<Case18> {
         for w in WRAPS {
             for mode in ["none", "zod"] {
                 let plain = PLAIN_NAMES[(ti + w.len()) % PLAIN_NAMES.len()];
-                out.push(Case18 { name: plain.into(), generic: false, target: target.to_string(), wrap: w.to_string(), mode: mode.into(), extra: vec![] });
+                out.push(Case18 { name: plain.into(), generic: false, target: target.to_string(), wrap: w.to_string(), mode: mode.into(), extra: vec![], local: String::new() });
                 let gen = GENERIC_NAMES[(ti + w.len()) % GENERIC_NAMES.len()];
-                out.push(Case18 { name: gen.into(), generic: true, target: target.to_string(), wrap: w.to_string(), mode: mode.into(), extra: vec![("Unrelated".into(), "number".into())] });
+                out.push(Case18 { name: gen.into(), generic: true, target: target.to_string(), wrap: w.to_string(), mode: mode.into(), extra: vec![("Unrelated".into(), "number".into())], local: String::new() });
+            }
+        }
+    }
+    // appended (grid indices of earlier cases are referenced by regress files)
+    for (ti, target) in TARGETS.iter().enumerate() {
+        for (wi, w) in WRAPS.iter().enumerate() {
+            for mode in ["none", "zod"] {
+                let form = LOCAL_FORMS[(ti + wi) % LOCAL_FORMS.len()];
+                let plain = PLAIN_NAMES[(ti + wi) % PLAIN_NAMES.len()];
+                out.push(Case18 { name: plain.into(), generic: false, target: target.to_string(), wrap: w.to_string(), mode: mode.into(), extra: vec![], local: form.into() });
             }
         }
     }
@@ -244,11 +278,15 @@ fn random_case(t: &mut Tape) -> Case18 {
             extra.push((n.to_string(), t.choose(TARGETS).to_string()));
         }
     }
-    Case18 { name, generic, target: t.choose(TARGETS).to_string(), wrap: t.choose(WRAPS).to_string(), mode: if t.bool() { "zod".into() } else { "none".into() }, extra }
+    let target = t.choose(TARGETS).to_string();
+    let wrap = t.choose(WRAPS).to_string();
+    let mode: String = if t.bool() { "zod".into() } else { "none".into() };
+    let local = if !generic && t.chance(1, 3) { t.choose(LOCAL_FORMS).to_string() } else { String::new() };
+    Case18 { name, generic, target, wrap, mode, extra, local }
 }
 
 pub fn run(ctx: &Ctx) {
-    ctx.set_rule("mapping tables of 1-3 entries over plain (PathBuf, Uuid, UserId, Decimal) and generic (DateTime<Utc>, Arc<str>, Box<str>) source names with targets string/number/boolean; the mapped name placed at each of 16 constructor positions (wraps) of each of the 5 translation sites, both modes; grid = target x wrap x mode x {plain, generic}; then random cases; evaluation = one (case, site) comparison between the mapped run and its reference run; non-trivial = mapped name below a constructor or at a non-field site");
+    ctx.set_rule("mapping tables of 1-3 entries over plain (PathBuf, Uuid, UserId, Decimal) and generic (DateTime<Utc>, Arc<str>, Box<str>) source names with targets string/number/boolean; the mapped name placed at each of 16 constructor positions (wraps) of each of the 5 translation sites, both modes; grid = target x wrap x mode x {plain, generic}; plus, for plain names, the mapped name also defined in the project as a serde struct / struct reaching a further type / enum / newtype; then random cases; evaluation = one (case, site) comparison between the mapped run and its reference run; non-trivial = mapped name below a constructor or at a non-field site");
     ctx.set_exhaustive(true);
     ctx.assume("differential oracle: unmapped run with Ref N substituted by M (plain names) or a plain-name twin mapped to the same target (generic names)");
     let g = grid();
